@@ -694,7 +694,6 @@ func ruleTrackedFragments(c *Ctx, r *Report) {
 	r.Floor(rule, n, 3)
 }
 
-
 // ivState tracks, along one path, the symbolic value of the retransmission interval location
 // ("I" = value on entry, "2*I", "60s", or a description of anything else).
 type ivState struct {
